@@ -14,7 +14,8 @@ import tstone_ties
 
 # the pointer-level models of the parsers' own buffers (session 5, package B) and their proofs
 COQ_FILES_MEM = ["Mem/Alloc.v", "Mem/AllocProofs.v", "Files/TsMem.v", "Files/TsMemProofs.v", "Files/TsMemNpd.v",
-                 "Files/TsMemNpdProofs.v"]
+                 "Files/TsMemNpdProofs.v", "Files/LoadFail.v", "Files/LoadFailProofs.v", "Files/LoadFailSave.v",
+                 "Files/LoadFailSaveProofs.v"]
 
 
 def run(ctx):
@@ -33,9 +34,12 @@ def run(ctx):
         "run with the C code compiled with its malloc / calloc / realloc / free renamed to a counting, failing, block-moving "
         "ledger (harness/tstone_mem.c, tstone_mem_npd.c; checks/c09_mem.py): outcome, number of requests, sizes of the blocks "
         "freed at out:, blocks left, for every failing request",
-        "network-data half: the destination object after a failure and save/re-load of a loaded object are not modelled "
-        "(harness only: checks/c09_data.py under ASan/UBSan/LSan with the allocation interposer harness/allocwrap.c and a 5 s "
-        "watchdog per library call; harness/tstone_mem.c reads every cell of the destination back after every run)",
+        "network-data half: the calls the loaders make on the destination are recorded by the same models (TsMem.t_log, "
+        "TsMemNpd.n_log) and interpreted as operations of the container model coq/Data/DataModel.v (coq/Files/LoadFail.v); the "
+        "digest of the destination (type, rows, columns, frequencies, file type, z0 mode, precisions) after every run of the "
+        "memory harness, failure runs included, is compared with the model's; cell values at a failure exit and save / re-load "
+        "are harness only (checks/c09_data.py under ASan/UBSan/LSan with harness/allocwrap.c and a 5 s watchdog)",
+        "network-data half: coq/Files/SaveModel.v (acceptance model of vnadata_cksave, tied by C06) for the savability theorems",
         "gcc, ASan/UBSan/LSan",
     ]
     ctx.assumptions = ["inputs declaring more than 40 ports or 5000 frequencies are not executed (allocation size), "
